@@ -12,6 +12,7 @@ import (
 
 	"github.com/google/pprof/internal/measurement"
 	"github.com/google/pprof/profile"
+	"github.com/google/pprof/verif/internal/drv"
 	"github.com/google/pprof/verif/internal/harness"
 )
 
@@ -343,6 +344,106 @@ func runLabels(c *harness.Ctx) harness.Result {
 	return res
 }
 
+// the same conversions as printed by the real driver: pprof -top -unit=<target> on a profile whose
+// sample unit is any spelling of any unit
+func runDriverTop(c *harness.Ctx) harness.Result {
+	r := c.Rng
+	fs := fromSpecs[r.Intn(len(fromSpecs))]
+	fam := families[fs.fam]
+	fu := fam.units[fs.u]
+	tu := fam.units[r.Intn(len(fam.units))]
+	target := tu.aliases[r.Intn(len(tu.aliases))]
+	explicit := r.Intn(3) > 0
+	if !explicit {
+		target = "minimum"
+	}
+	p := &profile.Profile{SampleType: []*profile.ValueType{{Type: "t", Unit: fs.spelling}}, PeriodType: &profile.ValueType{Type: "t", Unit: fs.spelling}, Period: 1}
+	vals := map[string]int64{}
+	for i := 0; i < 3; i++ {
+		fn := &profile.Function{ID: uint64(i + 1), Name: fmt.Sprintf("fn%d", i), SystemName: fmt.Sprintf("fn%d", i), Filename: "x.go"}
+		loc := &profile.Location{ID: uint64(i + 1), Address: uint64(0x1000 + i), Line: []profile.Line{{Function: fn, Line: 1}}}
+		v := int64(1 + r.Intn(1000000))
+		switch r.Intn(4) {
+		case 0:
+			v = int64(1 + r.Intn(100))
+		case 1:
+			v = int64(r.Int63n(1 << 40))
+		}
+		p.Function = append(p.Function, fn)
+		p.Location = append(p.Location, loc)
+		p.Sample = append(p.Sample, &profile.Sample{Value: []int64{v}, Location: []*profile.Location{loc}})
+		vals[fn.Name] = v
+	}
+	desc := fmt.Sprintf("-top -unit=%s on values in %q: %v", target, fs.spelling, vals)
+	res := harness.Result{NonTrivial: true, Sig: desc, Sample: desc}
+	out, ui, rr := drv.Report(map[string]*profile.Profile{"p": p}, []string{"p"}, map[string]bool{"top": true, "trim": false}, map[string]string{"unit": target}, nil, nil, nil)
+	if rr.Panic != "" {
+		return harness.Violation("%s: panic %s", desc, rr.Panic)
+	}
+	if rr.Err != nil {
+		return harness.Violation("%s: failed: %v %v", desc, rr.Err, ui.Errs)
+	}
+	c.Stat("driver_tops", 1)
+	found := 0
+	// a value that rounds to nothing is printed as a bare 0: its display unit is the report's
+	var reportUnit *unit
+	if m := regexp.MustCompile(`of -?[0-9.]+([^ ]*) total`).FindStringSubmatch(out); m != nil {
+		for i := range fam.units {
+			if fam.units[i].canon == m[1] {
+				reportUnit = &fam.units[i]
+			}
+		}
+	}
+	for _, l := range strings.Split(out, "\n") {
+		f := strings.Fields(l)
+		if len(f) < 6 || !strings.HasPrefix(f[len(f)-1], "fn") {
+			continue
+		}
+		v, ok := vals[f[len(f)-1]]
+		if !ok {
+			continue
+		}
+		found++
+		m := labelRx.FindStringSubmatch(f[0])
+		var shown *unit
+		if m != nil {
+			for i := range fam.units {
+				if fam.units[i].canon == m[2] {
+					shown = &fam.units[i]
+				}
+			}
+		}
+		if f[0] == "0" {
+			shown = reportUnit
+			if shown == nil && explicit {
+				shown = &tu // everything rounds to nothing in the unit that was asked for
+			}
+			m = []string{"0", "0", ""}
+		}
+		if m == nil || shown == nil {
+			return harness.Violation("%s: flat value %q of %s is not a number with a unit of the source family\n%s", desc, f[0], f[len(f)-1], out)
+		}
+		if explicit && f[0] != "0" && shown.canon != tu.canon {
+			return harness.Violation("%s: flat value %q of %s is shown in %s, -unit asked for %s\n%s", desc, f[0], f[len(f)-1], shown.canon, tu.canon, out)
+		}
+		num, _ := new(big.Rat).SetString(m[1])
+		back := num.Mul(num, shown.factor)
+		orig := mul(v, fu.factor)
+		tol := new(big.Rat).Mul(rat(5001, 1000000), shown.factor)
+		tol.Add(tol, new(big.Rat).Mul(new(big.Rat).Abs(orig), big.NewRat(1, 1e12)))
+		d := new(big.Rat).Sub(back, orig)
+		if d.Abs(d).Cmp(tol) > 0 {
+			of, _ := orig.Float64()
+			bf, _ := back.Float64()
+			return harness.Violation("%s: %s is printed as %q = %v base units, its value is %v base units (more than display rounding)\n%s", desc, f[len(f)-1], f[0], bf, of, out)
+		}
+	}
+	if found != 3 {
+		return harness.Violation("%s: %d of 3 entries found in the report\n%s", desc, found, out)
+	}
+	return res
+}
+
 func runPercentage(c *harness.Ctx) harness.Result {
 	r := c.Rng
 	res := harness.Result{NonTrivial: true}
@@ -558,13 +659,14 @@ func init() {
 	harness.Register(&harness.Check{
 		ID:    "C15",
 		Level: "exploration",
-		Rule: "part lattice (exhaustive over the enumerated lattice): every alias x 5 spellings (lower, upper, title, plural, upper plural) of every unit as source x every alias of every unit of the family as target x boundary values {0, +-1, factor-1, factor, factor+1 for every unit step, 2^53+-1, MaxInt64, MinInt64, ...}; plus auto/minimum, negation, unknown and foreign targets. part random: random int64 values, unknown source units. part labels: Label read back through its printed unit within half a display digit, monotone. part percentage. part scaleprofiles: 2-4 profiles with two measured columns (bytes, time or GCU family; half of the time both of the same family so that one unit string needs two different conversions) next to a non-convertible column; every column must be harmonised to the finest unit among the inputs, sample counts and the other column unchanged, physical totals exact (GCU: within 1e-12 relative). " +
+		Rule: "part lattice (exhaustive over the enumerated lattice): every alias x 5 spellings (lower, upper, title, plural, upper plural) of every unit as source x every alias of every unit of the family as target x boundary values {0, +-1, factor-1, factor, factor+1 for every unit step, 2^53+-1, MaxInt64, MinInt64, ...}; plus auto/minimum, negation, unknown and foreign targets. part random: random int64 values, unknown source units. part labels: Label read back through its printed unit within half a display digit, monotone. part drivertop: the real driver's -top -unit=<any alias | minimum> on a profile whose sample unit is any spelling: every flat value read back through the unit it is printed in lies within half a display digit of the exact value, and an explicit unit is the one shown. part percentage. part scaleprofiles: 2-4 profiles with two measured columns (bytes, time or GCU family; half of the time both of the same family so that one unit string needs two different conversions) next to a non-convertible column; every column must be harmonised to the finest unit among the inputs, sample counts and the other column unchanged, physical totals exact (GCU: within 1e-12 relative). " +
 			"oracle: exact math/big.Rat unit tables (1e-12 relative tolerance for float64). non-trivial = every case; distinct = distinct (source spelling, values)",
 		Assumptions: []string{"unit tables as documented in pprof's measurement package: B..PB powers of 1024; ns/us/ms/s/hrs; GCU SI prefixes", "results are float64: exact ratio and identity are judged within 1e-12 relative error (1 ulp differences from multiply-then-divide are not display-visible)"},
 		Parts: []harness.Part{
 			{Name: "lattice", Quick: len(fromSpecs), Thor: len(fromSpecs), Run: runLattice},
 			{Name: "random", Quick: 1500, Thor: 150000, Run: runRandom},
 			{Name: "labels", Quick: 3000, Thor: 300000, Run: runLabels},
+			{Name: "drivertop", Quick: 1500, Thor: 60000, Run: runDriverTop},
 			{Name: "percentage", Quick: 500, Thor: 50000, Run: runPercentage},
 			{Name: "scaleprofiles", Quick: 2000, Thor: 200000, Run: runScaleProfiles},
 		},
